@@ -30,7 +30,7 @@ struct VECTOR_BLF_EXPORT CanSettingChanged final : ObjectHeader {
      *
      * Application channel
      */
-    uint16_t channel;
+    uint16_t channel {};
 
     /**
      * @brief -1 - Invalid Type; 0 - Reseted; 1 - Bit Timing Changed
@@ -40,7 +40,7 @@ struct VECTOR_BLF_EXPORT CanSettingChanged final : ObjectHeader {
      * 0: Reset event
      * 1: Bit timing changed
      */
-    uint8_t changedType;
+    uint8_t changedType {};
 
     CanFdExtFrameData bitTimings;
 };
